@@ -98,11 +98,11 @@ def small_tangent(r, group, radius, zero_ang=False):
     return out
 
 
-def make_points(exe, r, group, count, radius, dbg=True, lin_only=("zero", "unit", "large")):
+def make_points(exe, r, group, count, radius, dbg=True, lin_only=("zero", "unit", "large"), same_orientation=None):
     """a cloud of `count` valid elements within geodesic radius `radius` of a random centre,
     produced by the implementation itself (X.rplus(delta)); -> (centre, points, tags)"""
     X, tags = gen.element(r, group, norm="exact", lin_only=list(lin_only))
-    zero_ang = r.random() < 0.25
+    zero_ang = (r.random() < 0.25) if same_orientation is None else same_orientation
     if zero_ang:
         tags = tags + ["cloud:same-orientation"]
     lines = [gen.req(dbg, "o", group, "rplus", 0, X + small_tangent(r, group, radius, zero_ang)) for _ in range(count)]
